@@ -258,7 +258,7 @@ void h_EWPF_call(void)
 }
 /* the whole table: every entry is a permutation of {0,1,2,3} with its parity as sign (so that the array accesses
  * of operator() are in range for every entry), and the four entries used by the container are the documented exchanges */
-//@harness h_permutations4_table enforce=none props=C13 min_obl=363 reach=1 timeout=120 loops=0
+//@harness h_permutations4_table enforce=none props=C13 min_obl=561 reach=1 timeout=120 loops=0
 void h_permutations4_table(void)
 {
   int p = nondet_int();
